@@ -4,7 +4,7 @@
    YVGen.ScopeCfg); side conditions are decided here by computation. *)
 From Coq Require Import List Arith Bool String ZArith NArith Lia.
 From YVGen Require Import Consts ScopeCfg.
-From YV Require Import Upvalues Cells UpvaluesProofs ScopeLang ScopeComp ScopeRun ScopeLangProofs ScopeSwap ScopeSim ScopeDefs2 ScopeDefsN ScopeStage ScopeDefs5 ScopeStage5.
+From YV Require Import Upvalues Cells UpvaluesProofs UpvaluesFibersProofs ScopeLang ScopeComp ScopeRun ScopeLangProofs ScopeSwap ScopeSim ScopeDefs2 ScopeDefsN ScopeStage ScopeDefs5 ScopeStage5.
 Import ListNotations.
 
 Definition upvalues_max := N.to_nat UPVALUES_MAX.
@@ -55,6 +55,20 @@ Theorem C06_capture_after_close_fresh : forall (value : Type) (m : mstate value)
   let m3 := fst (step m2 (Push v)) in
   snd (capture m3 loc) = unext m1 /\ snd (capture m3 loc) <> id1.
 Proof. exact capture_after_close_fresh. Qed.
+(* --- the open lists are PER FIBER (round 7): nothing the running fiber does - captures, closes, returns, writes through an
+       upvalue that is open on another fiber's stack - changes the open list or the stack top of ANOTHER fiber, and a capture
+       links the slot into the running fiber's OWN list (where its next CloseTop / ReturnFrame finds it).  vm.rs: capture_upvalue
+       starts at the head of the active fiber's list and touches no other list (regenerated shape fact, C06_side_shapes) --- *)
+Theorem C06_step_other_fiber_lists : forall (value : Type) (st : mstate value) (o : op value) (g : nat),
+  g <> cur st ->
+  openl (fibs (fst (step st o)) g) = openl (fibs st g) /\ slen (fibs (fst (step st o)) g) = slen (fibs st g).
+Proof. exact step_other_fiber_lists. Qed.
+Theorem C06_capture_lands_in_own_list : forall (value : Type) (st : mstate value) (loc : nat),
+  loc < slen (cfib st) ->
+  let st' := fst (step st (Capture loc)) in
+  cur st' = cur st /\ (exists k, In (k, loc) (openl (fibs st' (cur st)))) /\
+  (forall g, g <> cur st -> fibs st' g = fibs st g).
+Proof. exact capture_lands_in_own_list. Qed.
 Theorem C06_refine_across_switch :
   disciplined (m_init 0%Z) switch_ops = true /\ run (m_init 0%Z) switch_ops = srun (s_init 0%Z) switch_ops.
 Proof. exact (conj (proj1 refine_across_switch) (proj1 (proj2 refine_across_switch))). Qed.
@@ -240,6 +254,8 @@ Theorem C06_compile_scope_stage5_refuted_unwind :
     ~ (exists n, forall k, Gen.run_funs bk_m cf (n + k) funs = eval_cells_fuel 30 p).
 Proof. exact compile_scope_stage5_refuted_unwind. Qed.
 
+Print Assumptions C06_step_other_fiber_lists.
+Print Assumptions C06_capture_lands_in_own_list.
 Print Assumptions C06_side_repaired_stage5.
 Print Assumptions C06_compile_scope_correct_stage5.
 Print Assumptions C06_compile_scope_correct_stage5_now.
